@@ -152,6 +152,7 @@ pub open spec fn intersects(r: ZoomRecord, chrom: u32, start: u32, end: u32) -> 
                 invariant
                     [[L: loop_be/cursor_at_record_boundary]]
                     bytes.rem() == data@.subrange(32 * k__ as int, data@.len() as int),
+                    [[L: loop_be/itemcount_is_len_div_32]]
                     itemcount == data@.len() / 32, data@.len() % 32 == 0,
                     [[L: loop_be/prefix_filtered]]
                     records@ == zoom_sel(true, data@, k__ as int, chrom, start, end),
@@ -159,6 +160,7 @@ pub open spec fn intersects(r: ZoomRecord, chrom: u32, start: u32, end: u32) -> 
                 invariant
                     [[L: loop_le/cursor_at_record_boundary]]
                     bytes.rem() == data@.subrange(32 * k__ as int, data@.len() as int),
+                    [[L: loop_le/itemcount_is_len_div_32]]
                     itemcount == data@.len() / 32, data@.len() % 32 == 0,
                     [[L: loop_le/prefix_filtered]]
                     records@ == zoom_sel(false, data@, k__ as int, chrom, start, end),
@@ -166,21 +168,27 @@ pub open spec fn intersects(r: ZoomRecord, chrom: u32, start: u32, end: u32) -> 
                 proof { float_ax::float_det(); }
 //@at /let chrom_id = bytes\.get_u32_le\(\);/ before
                 proof { float_ax::float_det(); }
-//@at /if chrom_id == chrom && chrom_end >= start && chrom_start <= end \{/ nth=1 before
+//@at /^\s*if .*\{\s*$/ nth=1 before
                 proof {
+                    [[L: loop_be/record_is_32_bytes]]
                     assert(bytes.rem() =~= data@.subrange(32 * (k__ + 1), data@.len() as int));
                     let ghost rr = rec_at(true, data@, k__ as int);
-                    assert(chrom_id == rr.chrom && chrom_start == rr.start && chrom_end == rr.end); [[L: loop_be/key_fields_at_published_offsets]]
+                    [[L: loop_be/key_fields_at_published_offsets]]
+                    assert(chrom_id == rr.chrom && chrom_start == rr.start && chrom_end == rr.end);
+                    [[L: loop_be/summary_fields_at_published_offsets]]
                     assert(bases_covered == rr.summary.bases_covered && min_val == rr.summary.min_val && max_val == rr.summary.max_val
-                        && sum == rr.summary.sum && sum_squares == rr.summary.sum_squares); [[L: loop_be/summary_fields_at_published_offsets]]
+                        && sum == rr.summary.sum && sum_squares == rr.summary.sum_squares);
                 }
-//@at /if chrom_id == chrom && chrom_end >= start && chrom_start <= end \{/ nth=2 before
+//@at /^\s*if .*\{\s*$/ nth=2 before
                 proof {
+                    [[L: loop_le/record_is_32_bytes]]
                     assert(bytes.rem() =~= data@.subrange(32 * (k__ + 1), data@.len() as int));
                     let ghost rr = rec_at(false, data@, k__ as int);
-                    assert(chrom_id == rr.chrom && chrom_start == rr.start && chrom_end == rr.end); [[L: loop_le/key_fields_at_published_offsets]]
+                    [[L: loop_le/key_fields_at_published_offsets]]
+                    assert(chrom_id == rr.chrom && chrom_start == rr.start && chrom_end == rr.end);
+                    [[L: loop_le/summary_fields_at_published_offsets]]
                     assert(bases_covered == rr.summary.bases_covered && min_val == rr.summary.min_val && max_val == rr.summary.max_val
-                        && sum == rr.summary.sum && sum_squares == rr.summary.sum_squares); [[L: loop_le/summary_fields_at_published_offsets]]
+                        && sum == rr.summary.sum && sum_squares == rr.summary.sum_squares);
                 }
 //@at /Ok\(records\)/ before
     proof {
